@@ -15,6 +15,10 @@ type TypeConverter struct {
 	imports      map[string]string // package path -> local name
 	usedNames    map[string]string // local name -> package path (for collision detection)
 	nameCounters map[string]int    // base name -> counter for generating unique names
+	// generated holds the package qualifiers this converter wrote itself: they
+	// already are the names of the output file, whatever the same name means
+	// in a source file
+	generated map[*ast.Ident]struct{}
 }
 
 // NewTypeConverter creates a new TypeConverter for the given package.
@@ -24,7 +28,18 @@ func NewTypeConverter(currentPkg *types.Package) *TypeConverter {
 		imports:      make(map[string]string),
 		usedNames:    make(map[string]string),
 		nameCounters: make(map[string]int),
+		generated:    make(map[*ast.Ident]struct{}),
 	}
+}
+
+// Qualifier returns an identifier for the local name AddImport handed out.
+func (tc *TypeConverter) Qualifier(name string) *ast.Ident {
+	ident := ast.NewIdent(name)
+	if tc.generated != nil {
+		tc.generated[ident] = struct{}{}
+	}
+
+	return ident
 }
 
 // Imports returns the collected import specifications needed for the generated code.
@@ -99,6 +114,9 @@ func (tc *TypeConverter) CollectExprImports(expr ast.Expr, sourceImports map[str
 		if !ok {
 			return true
 		}
+		if _, generated := tc.generated[ident]; generated {
+			return true
+		}
 		// Look up the package name in source imports
 		pkgName := ident.Name
 		if importPath, exists := sourceImports[pkgName]; exists {
@@ -159,7 +177,7 @@ func (tc *TypeConverter) TypeToExpr(t types.Type) ast.Expr {
 			pkgName := obj.Pkg().Name()
 			actualName := tc.AddImport(pkgPath, pkgName)
 			return &ast.SelectorExpr{
-				X:   ast.NewIdent(actualName),
+				X:   tc.Qualifier(actualName),
 				Sel: ast.NewIdent(obj.Name()),
 			}
 		}
